@@ -9,7 +9,7 @@ CONSTANTS
   Modes,        \* subset of {"run", "master"}
   Conts,        \* subset of BOOLEAN
   Forks,        \* subset of BOOLEAN
-  MaxFaults, MaxRestarts
+  MaxFaults, FaultBudgets, MaxRestarts
 
 \* destination at the start: empty, partial (some of it integrated), full
 DestShapes(s) == {<<0, 0>>} \cup {<<dl, di>> \in (1..s) \X (0..s) : di <= dl /\ (di = dl \/ di = 0 \/ di = dl - 1)}
@@ -18,7 +18,7 @@ Cfgs ==
   { c \in [ src0 : SrcSizes, growth : Growths, bad : {{1}}, destLen : 0..MaxIdx, destInt : 0..MaxIdx,
             batch : Batches, fetchers : FetcherCounts, submitters : SubmitterCounts,
             cont : Conts, stop : {FALSE}, start : {0, -1}, forked : Forks, forkAt : 0..MaxIdx,
-            mode : Modes, faults : {MaxFaults}, restarts : {MaxRestarts} ] :
+            mode : Modes, faults : FaultBudgets, restarts : {MaxRestarts} ] :
       /\ c.src0 + c.growth <= MaxIdx
       /\ <<c.destLen, c.destInt>> \in DestShapes(c.src0)
       /\ (c.cont => c.start = 0)
